@@ -197,7 +197,8 @@ import Tetl.C14.Gen
 namespace Tetl.C14.GenDispatch
 open Tetl.C14
 
-def g (ok : Bool) (v : String) : String := if ok then v else "ub"
+/-- the value is evaluated only when the obligation holds (a shift by an unchecked count would be astronomically large) -/
+@[noinline] def g (ok : Bool) (v : Unit → String) : String := if ok then v () else "ub"
 def sb (x : Bool) : String := if x then "1" else "0"
 """]
 
@@ -210,25 +211,25 @@ def sb (x : Bool) : String := if x then "1" else "0"
     gname = {"byteswap_fb": "byteswap_fallback"}
     for op, tys in un_int.items():
         f = gname.get(op, op)
-        fn("u_" + op, "(a : Int)", [(t, "g (Gen.%s_%s_ub a) (toString (Gen.%s_%s a))" % (f, t, f, t)) for t in tys])
-    fn("u_has_single_bit", "(a : Int)", [(t, "g (Gen.has_single_bit_%s_ub a) (sb (Gen.has_single_bit_%s a))" % (t, t)) for t in uns])
+        fn("u_" + op, "(a : Int)", [(t, "g (Gen.%s_%s_ub a) (fun _ => toString (Gen.%s_%s a))" % (f, t, f, t)) for t in tys])
+    fn("u_has_single_bit", "(a : Int)", [(t, "g (Gen.has_single_bit_%s_ub a) (fun _ => sb (Gen.has_single_bit_%s a))" % (t, t)) for t in uns])
     bin_int = {"rotl": uns, "rotr": uns, "set_bit": uns, "reset_bit": uns, "flip_bit": uns, "add_sat": names,
                "div_sat": names, "midpoint": names}
     for op, tys in bin_int.items():
-        fn("b_" + op, "(a y : Int)", [(t, "g (Gen.%s_%s_ub a y) (toString (Gen.%s_%s a y))" % (op, t, op, t)) for t in tys])
-    fn("b_test_bit", "(a y : Int)", [(t, "g (Gen.test_bit_%s_ub a y) (sb (Gen.test_bit_%s a y))" % (t, t)) for t in uns])
+        fn("b_" + op, "(a y : Int)", [(t, "g (Gen.%s_%s_ub a y) (fun _ => toString (Gen.%s_%s a y))" % (op, t, op, t)) for t in tys])
+    fn("b_test_bit", "(a y : Int)", [(t, "g (Gen.test_bit_%s_ub a y) (fun _ => sb (Gen.test_bit_%s a y))" % (t, t)) for t in uns])
     for v in ("true", "false"):
         fn("b_set_bit_" + ("1" if v == "true" else "0"), "(a y : Int)",
-           [(t, "g (Gen.set_bit_to_%s_ub a y %s) (toString (Gen.set_bit_to_%s a y %s))" % (t, v, t, v)) for t in uns])
+           [(t, "g (Gen.set_bit_to_%s_ub a y %s) (fun _ => toString (Gen.set_bit_to_%s a y %s))" % (t, v, t, v)) for t in uns])
     six = ["cmp_equal", "cmp_not_equal", "cmp_less", "cmp_greater", "cmp_less_equal", "cmp_greater_equal"]
     for t in names:
         fn("p_cmp_" + t, "(a y : Int)",
-           [(u, "g (%s) (String.join [%s])" % (" && ".join("Gen.%s_%s_%s_ub a y" % (f, t, u) for f in six),
+           [(u, "g (%s) (fun _ => String.join [%s])" % (" && ".join("Gen.%s_%s_%s_ub a y" % (f, t, u) for f in six),
                                              ", ".join("sb (Gen.%s_%s_%s a y)" % (f, t, u) for f in six))) for u in names])
         fn("p_saturate_cast_" + t, "(a : Int)",
-           [(u, "g (Gen.saturate_cast_%s_%s_ub a) (toString (Gen.saturate_cast_%s_%s a))" % (t, u, t, u)) for u in names])
+           [(u, "g (Gen.saturate_cast_%s_%s_ub a) (fun _ => toString (Gen.saturate_cast_%s_%s a))" % (t, u, t, u)) for u in names])
         fn("p_in_range_" + t, "(a : Int)",
-           [(u, "g (Gen.in_range_%s_%s_ub a) (sb (Gen.in_range_%s_%s a))" % (t, u, t, u)) for u in names])
+           [(u, "g (Gen.in_range_%s_%s_ub a) (fun _ => sb (Gen.in_range_%s_%s a))" % (t, u, t, u)) for u in names])
     L.append("def p_cmp (t u : String) (a y : Int) : Option String :=\n  match t with\n"
              + "".join("  | \"%s\" => p_cmp_%s u a y\n" % (t, t) for t in names) + "  | _ => none\n")
     for op in ("saturate_cast", "in_range"):
